@@ -39,6 +39,18 @@ TInit == /\ vrun \in 1..Len(Runs)
 
 TSubmit == Submit /\ vpos' = [w \in Workers |-> 0] /\ UNCHANGED vrun
 
+\* serial drivers and the CLI loop: the caller's own events, in list order
+TSerialStart == SerialStart /\ UNCHANGED <<vrun, vpos>>
+TSerialSolve == /\ IsW(1, "solve") /\ SerialStep
+                /\ Tasks[vnext] = <<EvW(1).tower, EvW(1).step>>
+                /\ vpos' = [vpos EXCEPT ![1] = @ + 1] /\ UNCHANGED vrun
+TSerialMark ==  /\ vpcd = "serialrun" /\ (IsW(1, "sbegin") \/ IsW(1, "send"))
+                /\ (IsW(1, "sbegin") => vnext <= NTasks /\ Tasks[vnext] = <<EvW(1).tower, 1>>)                \* a series starts at its first step
+                /\ (IsW(1, "send") => vnext > 1 /\ Tasks[vnext - 1] = <<EvW(1).tower, NS>> /\ EvW(1).step = NS)   \* and ends after its last
+                /\ vpos' = [vpos EXCEPT ![1] = @ + 1]
+                /\ UNCHANGED <<vcfg, vphase, vnext, vbusy, vinit, vwthr, vprog, vacc, vout, vorder, vresults, vpcd, vrun>>
+TSerialDone ==  SerialDone /\ AllConsumed /\ UNCHANGED <<vrun, vpos>>
+
 \* worker_init: the process took a task and reset its inherited state; the task must be the next unstarted one
 TTakeInit(w) ==
     /\ IsW(w, "init") /\ vpcd = "run" /\ vbusy[w] = 0 /\ vnext <= NTasks
@@ -68,12 +80,14 @@ TFinish(w) ==
 TPoolDone == PoolDone /\ AllConsumed /\ UNCHANGED <<vrun, vpos>>
 TAssemble == Assemble /\ UNCHANGED vrun /\ vpos' = [w \in Workers |-> 0]
 
-TNext == TSubmit \/ (\E w \in Workers : TTakeInit(w) \/ TSeriesMark(w) \/ TSolve(w) \/ TFinish(w)) \/ TPoolDone \/ TAssemble
+TNext == TSerialStart \/ TSerialSolve \/ TSerialMark \/ TSerialDone \/ TSubmit \/ (\E w \in Workers : TTakeInit(w) \/ TSeriesMark(w) \/ TSolve(w) \/ TFinish(w)) \/ TPoolDone \/ TAssemble
 
 \* the assembled result has the keys and lengths the parent logged, and they are the configuration's
 EndOK == vpcd = "done" =>
             /\ [i \in 1..Len(vresults) |-> vresults[i][1]] = R.keys
             /\ [i \in 1..Len(vresults) |-> Len(vresults[i][2])] = R.lens
 View2 == <<vcfg, vphase, vnext, vbusy, vinit, vwthr, vprog, vacc, vout, vresults, vpcd, vrun, vpos>>
-Report == vpcd = "done" => PrintT("@@" \o ToJson([run |-> vrun, ok |-> (R.keys = [i \in 1..NT |-> i] /\ R.lens = [i \in 1..NT |-> NS])]))
+KeysWanted == IF Strategy = "cli" THEN [k \in 1..(NT * NS) |-> ((k - 1) \div NS) + 1] ELSE [i \in 1..NT |-> i]
+LensWanted == IF Strategy = "cli" THEN [k \in 1..(NT * NS) |-> 1] ELSE [i \in 1..NT |-> NS]
+Report == vpcd = "done" => PrintT("@@" \o ToJson([run |-> vrun, ok |-> (R.keys = KeysWanted /\ R.lens = LensWanted)]))
 =============================================================================
